@@ -602,6 +602,9 @@ func derivable(out, m []byte, allow [][]byte, k int) bool {
 	return false
 }
 
+// Derivable is the framing rule for other layers of this property: out is m itself or m with one region replaced by plain.
+func Derivable(out, m, plain []byte) bool { return derivable(out, m, [][]byte{plain}, 1) }
+
 // panicSite extracts the innermost Acra function below the panic from a stack dump.
 func panicSite(stack string) string {
 	lines := strings.Split(stack, "\n")
@@ -814,6 +817,9 @@ type job struct {
 }
 
 // Run is the C03 monitor.
+// ProxyLayer, when set (props/c03/proxy), runs the wire-level layer of this property over the PostgreSQL proxy rig.
+var ProxyLayer func(r *ev.Run)
+
 func Run(r *ev.Run) {
 	r.Rule = "artefacts = {raw AcraStruct, raw AcraBlock, container(AcraStruct), container(AcraBlock), search-hash‖each} × plaintext lengths {1,5,33,200} (v1 keystore for lengths 1,33; v2 for 5,200; owner has one rotated key); " +
 		"modifications = single bit flips, truncations, appended suffixes (1 byte, 8 bytes, second envelope), every length field (AcraStruct data length, AcraBlock rest/key length, container total length, Secure Message length, Secure Cell iv/tag/msg lengths) forced to {0,1,2,len-1,len+1,0x7fff,0xffff,2^31-1,2^31,2^32-1,2^63-1,2^63,2^64-1}, type/backend/hash-function/envelope-id bytes to other values, AcraBlock key id sweep, part splices (header/key block/payload) between two values of the same and of another client, swapped search hashes; " +
@@ -980,4 +986,7 @@ func Run(r *ev.Run) {
 	r.RequireAtLeast("modifications:splice", 100)
 	r.RequireAtLeast("modifications:swaphash", 40)
 	r.RequireAtLeast("modifications:keyid", int64(r.Pick(500, 65000)))
+	if ProxyLayer != nil {
+		ProxyLayer(r)
+	}
 }
